@@ -10,6 +10,7 @@ use vstd::string::*;
 verus! {
 
 //@include contracts/shared/lber_types.rs
+//@include contracts/shared/tree_spec.rs
 //@include contracts/shared/std_specs.rs
 
 pub mod nom {
@@ -111,6 +112,48 @@ pub proof fn lemma_encs_push(c: Seq<u8>, chs: Seq<StructureTag>, t: StructureTag
         assert(chs.push(t)[k - 1] == chs[k - 1]);
     }
 }
+
+// ---- the reference decoder as a function (X.690 8.1 read left to right): NeedMore / Bad / Ok(bytes consumed, tree).
+// An element that overruns its fully present parent makes the parent Bad (not NeedMore).
+pub enum SRes { NeedMore, Bad, Ok(nat, T) }
+pub open spec fn sparse(b: Seq<u8>) -> SRes decreases b.len(), 0nat {
+    match type_hdr(b) {
+        Hdr::NeedMore => SRes::NeedMore,
+        Hdr::Bad => SRes::Bad,
+        Hdr::Ok(n1, c, s, id) => if !(0 < n1 <= b.len()) { SRes::Bad } else {
+            match len_hdr(b.subrange(n1 as int, b.len() as int)) {
+                Len::NeedMore => SRes::NeedMore,
+                Len::Bad => SRes::Bad,
+                Len::Ok(n2, l) => if b.len() < n1 + n2 + l { SRes::NeedMore } else {
+                    let content = b.subrange((n1 + n2) as int, (n1 + n2 + l) as int);
+                    match s {
+                        TagStructure::Primitive => SRes::Ok((n1 + n2 + l) as nat, T::P(c, id, content)),
+                        TagStructure::Constructed => match sparse_list(content) {
+                            Some(k) => SRes::Ok((n1 + n2 + l) as nat, T::C(c, id, k)),
+                            None => SRes::Bad,
+                        },
+                    }
+                },
+            }
+        },
+    }
+}
+pub open spec fn sparse_list(c: Seq<u8>) -> Option<Seq<T>> decreases c.len(), 1nat {
+    if c.len() == 0 { Some(Seq::empty()) } else {
+        match sparse(c) {
+            SRes::Ok(k, t) => if 0 < k <= c.len() {
+                match sparse_list(c.subrange(k as int, c.len() as int)) { Some(r) => Some(seq![t] + r), None => None }
+            } else { None },
+            _ => None,
+        }
+    }
+}
+pub proof fn lemma_st_trees_push(s: Seq<StructureTag>, x: StructureTag, n: nat)
+    requires n <= s.len()
+    ensures st_trees(s.push(x), n) == st_trees(s, n)
+    decreases n
+{ if n > 0 { lemma_st_trees_push(s, x, (n - 1) as nat); assert(s.push(x)[n - 1] == s[n - 1]); } }
+
 // how many bytes the outermost TLV announces: header + length octets + announced contents
 pub enum Need { Unknown, Bad, Bytes(nat) }
 pub open spec fn need(b: Seq<u8>) -> Need {
@@ -124,6 +167,125 @@ pub open spec fn need(b: Seq<u8>) -> Need {
         },
     }
 }
+
+
+// ---- C07 round trip as a theorem over the contracts: parsing the encoder's output returns the identical tree and
+// leaves trailing bytes untouched.  encode_inner appends ber_t(st_tree(tag)) (V-lber-enc); parse_tag computes `sparse`
+// (above); what remains is the spec-level fact sparse(ber_t(t) + trail) == Ok(|ber_t(t)|, t), proved here by
+// induction from two leaf clauses that Kani discharges on the real header functions:
+//   K-lber C07.write_type_single_octet_ids_le30 + C06.parse_type_header_is_type_hdr  (identifier octet, ids <= 30)
+//   K-lber C07.parse_length_inverts_write_length + C06.parse_length_is_len_hdr        (length octets, every usize)
+pub axiom fn ax_type_of_ident(c: TagClass, s: TagStructure, id: u64, rest: Seq<u8>)
+    requires id <= 30
+    ensures ident(c, s, id).len() == 1, type_hdr(ident(c, s, id) + rest) == Hdr::Ok(1, c, s, id);
+pub axiom fn ax_len_of_octets(n: nat, rest: Seq<u8>)
+    requires n <= usize::MAX
+    ensures len_octets(n).len() >= 1, len_hdr(len_octets(n) + rest) == Len::Ok(len_octets(n).len(), n as usize);
+// trees the property talks about: tag numbers up to 30, contents that fit a usize
+pub open spec fn wf_t(t: T) -> bool decreases t, 0nat {
+    match t {
+        T::P(c, id, v) => id <= 30 && v.len() <= usize::MAX,
+        T::C(c, id, k) => id <= 30 && ber_ts(k, k.len()).len() <= usize::MAX && wf_ts(k, k.len()),
+    }
+}
+pub open spec fn wf_ts(k: Seq<T>, n: nat) -> bool decreases k, n {
+    if n == 0 || n > k.len() { true } else { wf_ts(k, (n - 1) as nat) && wf_t(k[n - 1]) }
+}
+// the children's encodings from index i on, left to right
+pub open spec fn ber_from(k: Seq<T>, i: nat) -> Seq<u8> decreases k.len() - i {
+    if i >= k.len() { Seq::empty() } else { ber_t(k[i as int]) + ber_from(k, i + 1) }
+}
+pub proof fn lemma_wf_ts_index(k: Seq<T>, n: nat, j: int)
+    requires n <= k.len(), wf_ts(k, n), 0 <= j < n
+    ensures wf_t(k[j])
+    decreases n
+{ if j < n - 1 { lemma_wf_ts_index(k, (n - 1) as nat, j); } }
+pub proof fn lemma_ber_ts_from(k: Seq<T>, i: nat)
+    requires i <= k.len()
+    ensures ber_ts(k, k.len()) == ber_ts(k, i) + ber_from(k, i)
+    decreases k.len() - i
+{
+    if i == k.len() {
+        assert(ber_from(k, i) =~= Seq::<u8>::empty());
+        assert(ber_ts(k, i) + Seq::<u8>::empty() =~= ber_ts(k, i));
+    } else {
+        lemma_ber_ts_from(k, i + 1);
+        assert(ber_ts(k, i + 1) == ber_ts(k, i) + ber_t(k[i as int]));
+        assert((ber_ts(k, i) + ber_t(k[i as int])) + ber_from(k, i + 1) =~= ber_ts(k, i) + (ber_t(k[i as int]) + ber_from(k, i + 1)));
+    }
+}
+pub proof fn lemma_roundtrip(t: T, trail: Seq<u8>)
+    requires wf_t(t)
+    ensures sparse(ber_t(t) + trail) == SRes::Ok(ber_t(t).len(), t), //# C07.parse_of_encoding_is_the_identical_tree_and_leaves_trailing_bytes
+    decreases t, 1nat
+{
+    let b = ber_t(t) + trail;
+    match t {
+        T::P(c, id, v) => {
+            let idn = ident(c, TagStructure::Primitive, id);
+            let lo = len_octets(v.len());
+            ax_type_of_ident(c, TagStructure::Primitive, id, lo + v + trail);
+            ax_len_of_octets(v.len(), v + trail);
+            assert(b =~= idn + (lo + v + trail));
+            assert(b.subrange(1, b.len() as int) =~= lo + (v + trail));
+            assert(b.subrange((1 + lo.len()) as int, (1 + lo.len() + v.len()) as int) =~= v);
+            assert(ber_t(t).len() == 1 + lo.len() + v.len());
+        }
+        T::C(c, id, k) => {
+            let body = ber_ts(k, k.len());
+            let idn = ident(c, TagStructure::Constructed, id);
+            let lo = len_octets(body.len());
+            ax_type_of_ident(c, TagStructure::Constructed, id, lo + body + trail);
+            ax_len_of_octets(body.len(), body + trail);
+            assert(b =~= idn + (lo + body + trail));
+            assert(b.subrange(1, b.len() as int) =~= lo + (body + trail));
+            assert(b.subrange((1 + lo.len()) as int, (1 + lo.len() + body.len()) as int) =~= body);
+            assert(ber_t(t).len() == 1 + lo.len() + body.len());
+            lemma_ber_ts_from(k, 0);
+            assert(ber_ts(k, 0) + ber_from(k, 0) =~= ber_from(k, 0));
+            lemma_roundtrip_list(k, 0);
+            assert(k.subrange(0, k.len() as int) =~= k);
+        }
+    }
+}
+pub proof fn lemma_roundtrip_list(k: Seq<T>, i: nat)
+    requires i <= k.len(), wf_ts(k, k.len())
+    ensures sparse_list(ber_from(k, i)) == Some(k.subrange(i as int, k.len() as int))
+    decreases k, k.len() - i
+{
+    if i == k.len() {
+        assert(ber_from(k, i) =~= Seq::<u8>::empty());
+        assert(k.subrange(i as int, k.len() as int) =~= Seq::<T>::empty());
+    } else {
+        let x = k[i as int];
+        lemma_wf_ts_index(k, k.len(), i as int);
+        let rest = ber_from(k, i + 1);
+        lemma_roundtrip(x, rest);
+        lemma_roundtrip_list(k, i + 1);
+        let c = ber_from(k, i);
+        assert(c == ber_t(x) + rest);
+        // a tree's encoding is never empty (identifier octet)
+        match x { T::P(cc, id, v) => { ax_type_of_ident(cc, TagStructure::Primitive, id, Seq::empty()); }
+                  T::C(cc, id, kk) => { ax_type_of_ident(cc, TagStructure::Constructed, id, Seq::empty()); } }
+        assert(ber_t(x).len() > 0);
+        assert(c.subrange(ber_t(x).len() as int, c.len() as int) =~= rest);
+        assert(seq![x] + k.subrange((i + 1) as int, k.len() as int) =~= k.subrange(i as int, k.len() as int));
+    }
+}
+
+//@canary-begin
+// must FAIL: if `false` followed from the leaf axioms (contradictory axioms), every proof in this unit would be vacuous
+pub proof fn leaf_axioms_consistent__canary(c: TagClass, s: TagStructure, id: u64, rest: Seq<u8>, n: nat, t: T, trail: Seq<u8>)
+    requires id <= 30, n <= usize::MAX, wf_t(t)
+    ensures false
+{
+    broadcast use ax_type_hdr, ax_len_hdr;
+    ax_type_of_ident(c, s, id, rest); ax_len_of_octets(n, rest); ax_type_of_ident(c, s, id, Seq::empty()); ax_len_of_octets(n, Seq::empty());
+    ax_type_local(ident(c, s, id) + rest, 1);
+    ax_len_local(len_octets(n) + rest, len_octets(n).len() as int);
+    lemma_roundtrip(t, trail);
+}
+//@canary-end
 
 //@lift name=parse_tag file=lber/src/parse.rs fn=parse_tag
 //@ ret r
@@ -140,11 +302,17 @@ pub open spec fn need(b: Seq<u8>) -> Need {
     }
 //@ insert after "let mut tv: Vec<StructureTag> = Vec::new();"
             let ghost c0 = content@;
+            proof {
+                assert(c0 =~= i0.subrange((n1 + n2) as int, (n1 + n2 + len) as int));
+                assert(st_trees(tv@, tv@.len()) + sparse_list(c0)->0 =~= sparse_list(c0)->0);
+            }
 //@ loop 1
                 invariant content@.len() <= len, len < i0.len(), c0.len() == len, i0 == input@,
                     need(i0) == Need::Bytes((n1 + n2 + len) as nat), i0.len() >= n1 + n2 + len,
                     content@ == c0.subrange(c0.len() - content@.len(), c0.len() as int),
                     encs_of(c0.subrange(0, c0.len() - content@.len()), tv@, tv@.len()), //# inv.children_so_far_are_encoded_by_the_consumed_prefix
+                    sparse_list(c0) == (match sparse_list(content@) { Some(r) => Some(st_trees(tv@, tv@.len()) + r), None => None::<Seq<T>> }), //# inv.reference_decoder_agrees_on_the_children_so_far
+                    sparse(i0) == (match sparse_list(c0) { Some(k) => SRes::Ok((n1 + n2 + len) as nat, T::C(class, id, k)), None => SRes::Bad }),
                 decreases content@.len(), //# C11.termination_of_child_loop
 //@ insert before "parse_tag(content)"
                 let ghost p = c0.len() - content@.len();
@@ -158,9 +326,23 @@ pub open spec fn need(b: Seq<u8>) -> Need {
                     assert(c0.subrange(0, p2).subrange(0, p) =~= c0.subrange(0, p));
                     assert(c0.subrange(0, p2).subrange(p, p2) =~= c0.subrange(p, c0.len() as int).subrange(0, k));
                     assert(content@ =~= c0.subrange(p2, c0.len() as int));
+                    // functional part: one more child agrees with the reference decoder
+                    assert(content@ =~= content_old.subrange(k, content_old.len() as int));
+                    lemma_st_trees_push(tv_old, tv@[tv@.len() - 1], tv_old.len());
+                    assert(st_trees(tv@, tv@.len()) =~= st_trees(tv_old, tv_old.len()).push(st_tree(tv@[tv@.len() - 1])));
+                    match sparse_list(content@) {
+                        Some(r) => { assert(st_trees(tv_old, tv_old.len()) + (seq![st_tree(tv@[tv@.len() - 1])] + r) =~= st_trees(tv@, tv@.len()) + r); }
+                        None => {}
+                    }
                 }
+//@ insert before "PL::P(content.to_vec())"
+            proof { assert(content@ =~= i0.subrange((n1 + n2) as int, (n1 + n2 + len) as int)); }
 //@ insert before "PL::C(tv)"
-            proof { assert(c0.subrange(0, c0.len() as int) =~= c0); }
+            proof {
+                assert(c0.subrange(0, c0.len() as int) =~= c0);
+                assert(st_trees(tv@, tv@.len()) + Seq::<T>::empty() =~= st_trees(tv@, tv@.len()));
+                assert(c0 =~= i0.subrange((n1 + n2) as int, (n1 + n2 + len) as int));
+            }
 //@ insert before "    Ok((\n        i,"
     proof {
         let n = (n1 + n2 + len) as int;
@@ -184,6 +366,12 @@ pub open spec fn need(b: Seq<u8>) -> Need {
         (need(input@) matches Need::Bytes(n) && input@.len() < n) ==> (r matches Err(e) && e is Incomplete), //# C06.missing_contents_is_need_more
         (need(input@) matches Need::Bytes(n) && input@.len() >= n) ==> !(r matches Err(nom::Err::Incomplete(_))), //# C06+C11.complete_frame_is_never_answered_incomplete
         (need(input@) is Bad) ==> (r matches Err(e) && !(e is Incomplete)), //# C11.bad_header_is_an_error
+        // full functional correctness against the reference decoder (soundness AND completeness)
+        match sparse(input@) {
+            SRes::NeedMore => r matches Err(e) && e is Incomplete,
+            SRes::Bad => r matches Err(e) && !(e is Incomplete),
+            SRes::Ok(k, t) => r matches Ok(p) && st_tree(p.1) == t && k <= input@.len() && p.0@ == input@.subrange(k as int, input@.len() as int),
+        }, //# C07.parser_computes_the_reference_decoder
     decreases input@.len(), //# C11.termination_of_recursion
 //@end
 
@@ -200,6 +388,11 @@ impl Parser {
             && enc_of(input@.subrange(0, input@.len() - rest@.len()), t)
             && need(input@) == Need::Bytes((input@.len() - rest@.len()) as nat), //# C06+C07.frame_cut_exactly
         (need(input@) matches Need::Bytes(n) && input@.len() >= n) ==> !(r matches Err(nom::Err::Incomplete(_))), //# C06+C11.complete_frame_is_never_answered_incomplete
+        input@.len() > 0 ==> (match sparse(input@) {
+            SRes::NeedMore => r matches Err(e) && e is Incomplete,
+            SRes::Bad => r matches Err(e) && !(e is Incomplete),
+            SRes::Ok(k, t) => r matches Ok(p) && st_tree(p.1) == t && k <= input@.len() && p.0@ == input@.subrange(k as int, input@.len() as int),
+        }), //# C07.parser_entry_point_computes_the_reference_decoder
 //@end
 }
 
